@@ -65,7 +65,7 @@ def rule_recheck(ctx, rep):
             nexts = []
             for bi, t in B.calls():
                 c = _callee(t)
-                if c == "core::ptr::write" or c == "<*mut T>::write":
+                if c == "core::ptr::write" or c == "<*mut T>::write" or (c == fillloop.MU_WRITE and fillloop.slot_iter_place(F, B, t) is not None):
                     writes.append((bi, t))
                 if t.get("callee") == "core::iter::traits::iterator::Iterator::next" and t.get("resolved") == "unresolved":
                     nexts.append((bi, t))
